@@ -428,15 +428,37 @@ def mask_clause(model, rep, funcs):
         if f is None:
             continue
         rep.instance("SLOT.mask", f.loc())
-        MM = Matcher(f)
-        bm: dict = {}
-        ok = MM.all_of(["$r = _get_radius_px(radius, scale)", "$st = _get_structure($r)",
-                        f"if radius < 0:\n    $out = ndi.{neg}(img, structure=$st, ...)\nelif radius > 0:\n    $out = ndi.{pos}(img, structure=$st, ...)",
-                        "return $out"], bm)[0] or \
-            MM.all_of(["$r = _get_radius_px(radius, scale)", "$st = _get_structure($r)",
-                       f"if radius < 0:\n    $out = ndi.{neg}(img, structure=$st, ...)\nelse:\n    $out = ndi.{pos}(img, structure=$st, ...)", "return $out"], bm)[0]
-        r0 = bool(ok) and MM.has("if $r == 0:\n    return img", bm)
-        rep.ob("SLOT", f.anchor, f"{name}: {neg} exactly for radius < 0, {pos} for radius > 0, identity when the radius is below one pixel", ok and r0, "",
+        # decided by sign-representative evaluation (sa/domains/signs.py): which scipy.ndimage.binary_* call is made for a negative / a positive radius, with which
+        # arguments - however the selection is spelled (if/elif, conditional expression, operations passed to a helper)
+        from ..domains.signs import external_calls_by_sign, tag_of
+        summ = {"_get_radius_px": lambda a, k: f"rpx({','.join(a)})", "_get_structure": lambda a, k: f"ball({','.join(a)})"}
+        res = external_calls_by_sign(model, f, "radius", signs=(-1, 1), summaries=summ, want=lambda n: n.rsplit(".", 1)[-1].startswith("binary_"))
+        ok, det = True, []
+        for sgn, want in ((-1, neg), (1, pos)):
+            r = res.get(sgn, {})
+            if "error" in r or r.get("impure"):
+                ok = None
+                det.append(f"radius {'<' if sgn < 0 else '>'} 0: not decidable by sign ({r.get('error') or r.get('impure')})")
+                continue
+            names = [c[0].rsplit(".", 1)[-1] for c in r["calls"]]
+            if names != [want]:
+                ok = False
+                det.append(f"radius {'<' if sgn < 0 else '>'} 0 calls {names or 'nothing'}, required exactly {want}")
+                continue
+            _, a, kw, _node = r["calls"][0]
+            if not a or tag_of(a[0]) != "img":
+                ok = False
+                det.append(f"{want} is applied to `{tag_of(a[0]) if a else None}`, not to the input image")
+            if tag_of(kw.get("structure")) != "ball(rpx(radius,scale))":
+                ok = False
+                det.append(f"{want}: structure is `{tag_of(kw.get('structure'))}`, required _get_structure(_get_radius_px(radius, scale))")
+            if "border_value" in kw and tag_of(kw["border_value"]) not in ("False", "0"):
+                ok = False
+                det.append(f"{want}: border_value={tag_of(kw['border_value'])}")
+            if not any("img" in tag_of(v).replace("call:", "") .split("@")[0] or tag_of(v) == "img" for v in r["returns"] if v is not None):
+                ok = False
+                det.append("no path returns the input image (identity below one pixel)")
+        rep.ob("SLOT", f.anchor, f"{name}: {neg} exactly for radius < 0, {pos} for radius > 0, identity when the radius is below one pixel", ok, "; ".join(det),
                node=f.node, fn=f, clause="6 masks", stmt=f"def {name}")
     f = funcs.get("acryo/pipe/_masking.py::gaussian_smooth")
     if f is not None:
